@@ -140,12 +140,25 @@ func lifecycleOK(tr []string, p2sh bool) (bool, string) {
 		return true, "" // rejected before execution started: no callbacks at all
 	}
 	q := qStart
+	cleaning := false // the alt stack is being dropped at the end of a script: only more pops and the script change may follow
 	for i := 0; i < len(tr); i++ {
 		e := tr[i]
+		if cleaning && e != "bq" && e != "aq" {
+			if e != "BC" {
+				return false, fmt.Sprintf("callback %s at %d after the end-of-script drop of the alt stack has begun: the step can only go on to the script change (what can fail it is checked before the stacks are touched)", e, i)
+			}
+			cleaning = false
+		}
 		switch e {
 		case "bp", "ap", "bq", "aq":
 			if !stackAllowed[q] && !(p2sh && q == qACe) {
 				return false, fmt.Sprintf("stack callback %s at %d outside opcode / end-of-script / final check (state %d)", e, i, q)
+			}
+			if q == qAO {
+				if e == "bp" || e == "ap" {
+					return false, fmt.Sprintf("push callback %s at %d between the opcode and the script change", e, i)
+				}
+				cleaning = true
 			}
 			nxt := ""
 			if i+1 < len(tr) {
